@@ -11,4 +11,4 @@ META = {
 
 
 def TASKS(tier):
-    return fold_tasks(tier, 'fold') + keyed_fold_tasks(tier, 'keyed_fold')
+    return fold_tasks(tier, 'fold') + keyed_fold_tasks(tier, 'keyed_fold') + two_phase_tasks(tier, 'two_phase')
